@@ -79,8 +79,8 @@ func allocModel(n int) porcupine.Model {
 			if in.Free {
 				bit := uint32(1) << uint(in.Hint)
 				if st&bit == 0 {
-					// the caller owns the block, so this cannot be linearized here
-					return false, st
+					// not outstanding at this point: the Free must fail (and change nothing)
+					return !out.OK, st
 				}
 				if !out.OK {
 					return false, st
@@ -146,10 +146,17 @@ func (allocConcEngine) Run(ctx *fw.Ctx, cs any) {
 			local := make([]porcupine.Operation, 0, c.PerG)
 			<-startGate
 			for i := 0; i < c.PerG; i++ {
-				if len(mine) > 0 && rng.Intn(100) < 45 {
-					k := rng.Intn(len(mine))
-					b := mine[k]
-					mine = append(mine[:k], mine[k+1:]...)
+				if rng.Intn(100) < 8 || (len(mine) > 0 && rng.Intn(100) < 45) {
+					var b int
+					if len(mine) == 0 || rng.Intn(100) < 15 {
+						// a block this caller does not (or no longer) hold: free, held by somebody else (two
+						// callers may name the same block at once), or already freed
+						b = rng.Intn(c.Blocks)
+					} else {
+						k := rng.Intn(len(mine))
+						b = mine[k]
+						mine = append(mine[:k], mine[k+1:]...)
+					}
 					target := net.IPNet{IP: pool.IP(pool.BlockBase(int64(b)))}
 					if c.V4 {
 						target.Mask = net.CIDRMask(32, 32)
@@ -205,7 +212,7 @@ func (allocConcEngine) Run(ctx *fw.Ctx, cs any) {
 	ctx.Count("allocconc.histories", 1)
 	res, info := porcupine.CheckOperationsVerbose(allocModel(c.Blocks), ops, 30*time.Second)
 	_ = info
-	for _, p := range []string{"C04", "C05", "C16"} {
+	for _, p := range []string{"C04", "C05", "C06", "C16"} {
 		ctx.Eval(p, int64(len(ops)))
 	}
 	switch res {
@@ -216,7 +223,7 @@ func (allocConcEngine) Run(ctx *fw.Ctx, cs any) {
 		ctx.Inconclusive("allocconc: porcupine timed out on a history of %d operations", len(ops))
 	case porcupine.Illegal:
 		h := describeHistory(ops, allocModel(c.Blocks))
-		for _, p := range []string{"C04", "C16"} {
+		for _, p := range []string{"C04", "C06", "C16"} {
 			ctx.Viol(p, "alloc-history-not-linearizable", "pool of %d blocks (v4=%v /%d->/%d), %d goroutines: the recorded Allocate/Free history has no sequential explanation (a block held by one caller was handed to another, capacity was misjudged, or a hint on a free block was not honoured)\n%s", c.Blocks, c.V4, c.PoolLen, c.Page, c.G, h)
 		}
 	}
@@ -224,6 +231,7 @@ func (allocConcEngine) Run(ctx *fw.Ctx, cs any) {
 		key := fmt.Sprintf("%+v/%s", *c, orderHash(ops))
 		ctx.Nontrivial("C04", key)
 		ctx.Nontrivial("C05", key)
+		ctx.Nontrivial("C06", "conc/"+key)
 		ctx.Nontrivial("C16", "allocconc/"+key)
 	}
 	if ctx.WantSample("C04") {
